@@ -42,10 +42,10 @@ def setup(tier, seed):
         cases_.append({'rows': r, 'vpos': vpos, 'fam': fam, 'sc': sc})
     # histories on ONE Extinction object (E2): every sequence of up to 3 (quick) / 4 (thorough) state-changing
     # operations, get_av compared with the reference after every step
-    depth = 3 if tier == 'quick' else 4
+    depth = 3 if tier == 'quick' else 4          # (thorough: depth 5 for the three-row tables, see below)
     for r, vpos, fam in itertools.product([3, 5], ['between', 'node', 'first'], [1, 2]):
         for first_op in OPS:
-            cases_.append({'hist': True, 'rows': r, 'vpos': vpos, 'fam': fam, 'sc': 1.0, 'first_op': first_op, 'depth': depth})
+            cases_.append({'hist': True, 'rows': r, 'vpos': vpos, 'fam': fam, 'sc': 1.0, 'first_op': first_op, 'depth': depth + (1 if (tier == 'thorough' and r == 3 and fam == 1) else 0)})
     return {'tier': tier, 'seed': seed, 'cases': cases_}
 
 
